@@ -18,7 +18,7 @@ LEVEL_TEXT = (
 CHECKS = {
     "C02": dict(
         rules="R02.1-R02.17",
-        what="every accepting return of find_cache_meta/validate_meta is dominated by a rejecting gate for each required meta field (or its named bypass); SCC freshness is the conjunction of its three tests (truth-table evaluation); State.is_fresh conjuncts; cached errors of fresh modules are replayed; stored and compared values of each gate field come from the same producer; the indirect-dependency visitor reaches every type component; the fast path and the import-cycle path of transitive_dep_hash select and hash the same dependencies; protocol member types (inherited members, setter types) reach the indirect dependencies; the signature of an implicitly called dunder method is recorded for them (known finding); generic callee type variables (known finding); de-duplication scope vs cached lines (known finding)",
+        what="every accepting return of find_cache_meta/validate_meta is dominated by a rejecting gate for each required meta field (or its named bypass); SCC freshness is the conjunction of its three tests (truth-table evaluation); State.is_fresh conjuncts; cached errors of fresh modules are replayed; stored and compared values of each gate field come from the same producer; the indirect-dependency visitor reaches every type component; the fast path and the import-cycle path of transitive_dep_hash select and hash the same dependencies; protocol member types (inherited members, setter types) reach the indirect dependencies; the signature of an implicitly called dunder method is recorded for them (known finding); generic callee type variables (known finding); de-duplication scope vs cached lines (known finding); the plugins snapshot is replaced only after process_graph (CFG); only hashed dependencies count as existing when indirect dependencies are patched in; every `Metadata abandoned` test of find_cache_meta looks at the meta (one known finding: plugins)",
         quant="edit histories with a run after every edit, in four store x format configurations",
         technique="CFG must-pass-through with polarity, abstract (truth-table) evaluation of the freshness flag, producer cross-check, component-coverage matrix",
         note="That the gate set is *sufficient* for every edit history is the behavioural part and is not decided. The serializer quadruples of CacheMeta/CacheMetaEx/State are decided by C11 (R11.1-R11.4).",
@@ -26,7 +26,7 @@ CHECKS = {
     ),
     "C03": dict(
         rules="R03.1-R03.14 (+R20.1 bound via C20)",
-        what="order of the re-processing pipeline in reprocess_nodes and of the propagation loop; type snapshots read every __eq__ field; component-coverage matrix of the astmerge / deps / astdiff type visitors; the follow-imports walk queues every module found changed (never filtered by the set the finder marks); every daemon check response computes its status by main()'s predicate; list/set twin fields of a build State are written together; `not in` generates the __contains__ dependency; a partial re-check regenerates the ignore-comment diagnostics a whole-module update produces (two known findings)",
+        what="order of the re-processing pipeline in reprocess_nodes and of the propagation loop; type snapshots read every __eq__ field; component-coverage matrix of the astmerge / deps / astdiff type visitors; the follow-imports walk queues every module found changed (never filtered by the set the finder marks); every daemon check response computes its status by main()'s predicate; list/set twin fields of a build State are written together; `not in` generates the __contains__ dependency; a partial re-check regenerates the ignore-comment diagnostics a whole-module update produces (two known findings); MRO walks in the dependency visitor add the member dependency for every base visited; protocol-dependency filters test module names; Var flags that decide member-access diagnostics are in the Var snapshot",
         quant="edit histories checked after every step",
         technique="CFG must-pass-through ordering, sibling cross-check (__eq__ fields vs snapshot reads), component-coverage matrix",
         note="Completeness of deps.py dependency generation per construct and of symbol snapshots is semantic and not decided. tables/R03.2.json and R03.3.json list the read deviants; entries marked (unproven) are informational.",
@@ -34,7 +34,7 @@ CHECKS = {
     ),
     "C04": dict(
         rules="R04.1-R04.9",
-        what="atomic temporary+os.replace publication and OSError containment in the file store; every MetadataStore.write result checked; no CacheMeta after a failed data write/getmtime; data before meta, provenance of the meta pair, dep_hashes before the meta write, commit after every write group; old meta_ex invalidated before a new meta becomes durable; find_cache_meta treats a missing meta_ex as a miss; a module's records share one shard of the sqlite store (names differ only after the first dot of the basename, which is all the shard key reads); the data write is skipped only after the stored data record was read and compared",
+        what="atomic temporary+os.replace publication and OSError containment in the file store; every MetadataStore.write result checked; no CacheMeta after a failed data write/getmtime; data before meta, provenance of the meta pair, dep_hashes before the meta write, commit after every write group; old meta_ex invalidated before a new meta becomes durable; find_cache_meta treats a missing meta_ex as a miss; a module's records share one shard of the sqlite store (names differ only after the first dot of the basename, which is all the shard key reads); the data write is skipped only after the stored data record was read and compared; blocking errors reported by the build-wide cache writers after process_graph are raised before dispatch returns",
         quant="kill points and failing store operations",
         technique="CFG must-pass-through / reachability queries over the cache-writing functions, who-may-write rule",
         note="Behaviour of sqlite when killed inside commit() and OS-level durability are library/OS behaviour and are not decided. tables/R04.1.json, R04.2.json hold the tabled exceptions.",
@@ -42,7 +42,7 @@ CHECKS = {
     ),
     "C05": dict(
         rules="R05.1-R05.15",
-        what="every primitive bound to a literal C function name (~380 bindings) has a C declaration in mypyc/lib-rt of matching arity whose parameter/return types are ABI-compatible with the declared RPrimitives; declared error kinds agree with what the C body can return (ERR_NEVER vs `return NULL`, ERR_FALSE vs truth type, ERR_NEG_INT vs signed int; ERR_NEVER vs returning the result of a fallible callee); bindings made through helper functions and literal loops are resolved; in-place operators bound to in-place C APIs; the coerce truth table; the environment link of a nested function survives completion on a condition that consults only what the code following the link consults; result types without a spare error value never declare ERR_MAGIC; the defaults-setup chain searches the whole mro because the declaration is registered on an own-body test; a bound C function returns its error value only after a call that can have set an exception; an operator spelling is bound to the C function carrying that operator's word; loop-inlining specialisers translate the call's other arguments before the loop; pass order of compile_scc_to_ir",
+        what="every primitive bound to a literal C function name (~380 bindings) has a C declaration in mypyc/lib-rt of matching arity whose parameter/return types are ABI-compatible with the declared RPrimitives; declared error kinds agree with what the C body can return (ERR_NEVER vs `return NULL`, ERR_FALSE vs truth type, ERR_NEG_INT vs signed int; ERR_NEVER vs returning the result of a fallible callee); bindings made through helper functions and literal loops are resolved; in-place operators bound to in-place C APIs; the coerce truth table; the environment link of a nested function survives completion on a condition that consults only what the code following the link consults; result types without a spare error value never declare ERR_MAGIC; the defaults-setup chain searches the whole mro because the declaration is registered on an own-body test; a bound C function returns its error value only after a call that can have set an exception; an operator spelling is bound to the C function carrying that operator's word; loop-inlining specialisers translate the call's other arguments before the loop; pass order of compile_scc_to_ir; both try/finally lowerings reset the pending-return register on the non-return entries; lib-rt never passes an unchecked difference/parameter as a bytes size; sign tests on `index` parameters include 0 on the non-negative side; the str.encode/bytes.decode fast paths accept exactly CPython's aliases",
         quant="programs x argument values x optimisation levels x build modes",
         technique="cross-language table check: Python AST of the primitive registry against clang's JSON AST of lib-rt; CFG ordering of the pass pipeline",
         note="Nothing about the translation of any construct is decided. Capsule-API slots (object-like macros) and conditionally compiled functions are only checked for existence. Borrow/steal agreement with C bodies would need an ownership analysis of C and is declined.",
@@ -50,7 +50,7 @@ CHECKS = {
     ),
     "C06": dict(
         rules="R06.1-R06.20, R05.3",
-        what="per-Op agreement of sources()/set_sources()/stolen() and PatchVisitor; borrow flag honoured by code generation; who may create IncRef/DecRef and which visit methods the post-refcount passes override; every emitter that initialises/traverses/clears/recycles instance storage covers the attributes of all classes in base_mro; memo keys of the exception transform; ERR_* exhaustiveness; definedness checks before every reading op; the two borrow-chain walks (lifetime scope, reassigned root) step through the same op kinds; a primitive's is_borrowed flag agrees with whether the bound C function takes a reference to a result it reads from a container slot / borrowing API; an argument declared stolen is given away on every exit of the C function (structured walk over clang's statement tree), and a function that gives a parameter away either owns it (declared stolen) or takes its own reference; the must-defined CFG has an unconditional edge to the handler of every normal successor; the generated constructor tests the failure value both calling conventions of __init__ produce; the definedness bitmap is cleared by `del`; attribute facts of __init__ are credited only to ops whose receiver is self; a stealing op that fails releases its operand (Cast: known finding); pass order of compile_scc_to_ir",
+        what="per-Op agreement of sources()/set_sources()/stolen() and PatchVisitor; borrow flag honoured by code generation; who may create IncRef/DecRef and which visit methods the post-refcount passes override; every emitter that initialises/traverses/clears/recycles instance storage covers the attributes of all classes in base_mro; memo keys of the exception transform; ERR_* exhaustiveness; definedness checks before every reading op; the two borrow-chain walks (lifetime scope, reassigned root) step through the same op kinds; a primitive's is_borrowed flag agrees with whether the bound C function takes a reference to a result it reads from a container slot / borrowing API; an argument declared stolen is given away on every exit of the C function (structured walk over clang's statement tree), and a function that gives a parameter away either owns it (declared stolen) or takes its own reference; the must-defined CFG has an unconditional edge to the handler of every normal successor; the generated constructor tests the failure value both calling conventions of __init__ produce; the definedness bitmap is cleared by `del`; attribute facts of __init__ are credited only to ops whose receiver is self; a stealing op that fails releases its operand (Cast: known finding); pass order of compile_scc_to_ir; conclusions from __init__ attribute facts respect the self-leak analysis, which looks for `self` in every operand-keeping op; lib-rt releases a replaced slot only after the store; glue code unboxes borrowed; preallocated comprehension results (known finding)",
         quant="function IR of all compiled programs, on every path",
         technique="sibling cross-check of the three declarations of each Op's operand set; who-may-create rule; CFG ordering of the pass pipeline; cross-language ownership check of the primitive registry against clang's AST of lib-rt (borrowed results, stolen arguments)",
         note="Reference-count balance of generated IR on every path needs the compiler to run on programs (translation validation by execution) and is not decided; the spill pass's balance argument is liveness-based and not decided.",
@@ -58,7 +58,7 @@ CHECKS = {
     ),
     "C07": dict(
         rules="R07.1-R07.12",
-        what="commit-before-reply in the worker for both phases; readiness gating by not_ready_count and interface-only done marking in the coordinator; agreement of the step sets of the sequential and the two-phase path; commit before the first broadcast; coordinator-side import errors recorded, shipped for every module of the batch and replayed by the worker; the options sent to workers keep the order of per-module config sections; build-wide BuildManager state that module processing adds to and build_inner reads after dispatch is returned by workers (known finding: missing_stub_packages)",
+        what="commit-before-reply in the worker for both phases; readiness gating by not_ready_count and interface-only done marking in the coordinator; agreement of the step sets of the sequential and the two-phase path; commit before the first broadcast; coordinator-side import errors recorded, shipped for every module of the batch and replayed by the worker; the options sent to workers keep the order of per-module config sections; build-wide BuildManager state that module processing adds to and build_inner reads after dispatch is returned by workers (known finding: missing_stub_packages); every State attribute write_cache puts into a meta reaches the worker-side State; the hide-after-many-errors state is per process (known finding)",
         quant="schedules of batches over workers",
         technique="CFG must-pass-through queries, guard-chain (control dependence) checks, sibling cross-check of step sets",
         note="Nothing about real interleavings is decided; these are the orderings any schedule relies on. tables/R07.3.json holds the four explained step differences.",
@@ -74,7 +74,7 @@ CHECKS = {
     ),
     "C08": dict(
         rules="R08.1-R08.8",
-        what="every SubtypeContext flag, proper_subtype and state.strict_optional is a component of the subtype memo key; every context/global attribute read by the subtype visitor is keyed; lookups and records address the same entry with the same key and operands and the right polarity; hashed fields of every Type class are compared by __eq__; join/meet tuple siblings share their preamble; the subtype caches are written only by visit_instance and is_protocol_implementation, and in the latter only when the question-changing parameters (class_obj, skip) are excluded; protocol checks about a class object (TypeType item, instance type of a type object) pass class_obj=True; no positive cache entry is recorded while a co-inductive assumption is pending; hashed fields of types are assigned only on objects the same function created (type-checking-time modules)",
+        what="every SubtypeContext flag, proper_subtype and state.strict_optional is a component of the subtype memo key; every context/global attribute read by the subtype visitor is keyed; lookups and records address the same entry with the same key and operands and the right polarity; hashed fields of every Type class are compared by __eq__; join/meet tuple siblings share their preamble; the subtype caches are written only by visit_instance and is_protocol_implementation, and in the latter only when the question-changing parameters (class_obj, skip) are excluded; protocol checks about a class object (TypeType item, instance type of a type object) pass class_obj=True; no positive cache entry is recorded while a co-inductive assumption is pending; hashed fields of types are assigned only on objects the same function created (type-checking-time modules); __eq__/__hash__ of Type subclasses compare components whole; no positive cache entry after a protocol assumption was relied on",
         quant="pairs and triples of types",
         technique="who-may-read rule over subtypes.py against the key tuple; sibling cross-check of lookup/record and of __hash__/__eq__",
         note="Reflexivity, transitivity, join/meet bounds and union simplification are value-level laws and are not decided. The unkeyed reads of options.extra_checks/strict_concatenate are tabled as informational (no failing input).",
@@ -122,7 +122,7 @@ CHECKS = {
     ),
     "C12": dict(
         rules="R12.1-R12.7",
-        what="operator spelling vs operator applied in the constant folders and IR opcode selection; operator tables vs the language reference; guard completeness of every partial operator in mypy/constant_fold.py and mypyc/irbuild/constant_fold.py; argument-kind predicates of call binding; None-or-constant values of the compile-time evaluators are never tested by truthiness",
+        what="operator spelling vs operator applied in the constant folders and IR opcode selection; operator tables vs the language reference; guard completeness of every partial operator in mypy/constant_fold.py and mypyc/irbuild/constant_fold.py; argument-kind predicates of call binding; None-or-constant values of the compile-time evaluators are never tested by truthiness; a keyword or TypedDict key never binds to the *args formal of that name; the (*args, **kwargs) duplicate exemption consults the actual types",
         quant="signatures, class hierarchies and constant expressions",
         technique="syntax-directed guard-chain analysis and table comparison against the language reference",
         note="Trusted: the failure-precondition table for CPython arithmetic in sa/rules/c12.py. Call binding, MRO and version/platform evaluation are value-level algorithms and are not decided.",
